@@ -116,6 +116,24 @@ def run(ck):
             m[ns[(k + 1) % len(ns)]] = odd[(k + 5) % len(odd)]
         if len(set(m.values())) == len(m) and not (set(m.values()) & set(ns)):
             terms.append(rename(j, m))
+    # declared SORTS whose names need quoting (sort names are symbols like any other)
+    def rename_sorts(j, mp):
+        def ty(t):
+            t = dict(t)
+            if t["k"] == "Sort" and t["n"] in mp:
+                t["n"] = mp[t["n"]]
+            t["a"] = [ty(a) for a in t["a"]]
+            return t
+        j = dict(j)
+        j["ty"] = ty(j["ty"])
+        j["bv"] = [{"n": v["n"], "ty": ty(v["ty"])} for v in j["bv"]]
+        j["a"] = [rename_sorts(c, mp) for c in j["a"]]
+        return j
+    odd_sorts = ["my sort", "2nd", "S-1", "Elem(x)", "été", "a;b"]
+    for k, j in enumerate(ls):
+        sn = sorted(d["n"] for d in sort_names(all_types(j, [])))
+        if sn:
+            terms.append(rename_sorts(j, {n_: odd_sorts[(k + i) % len(odd_sorts)] for i, n_ in enumerate(sn)}))
     multi = [j for j in base if len(names_in(j, set())) >= 2]
     for j in ck.rng.sample(multi, min(len(multi), 160 if quick else 1500)):
         terms += let_clash_variants(j, sorted(names_in(j, set())))
